@@ -425,7 +425,7 @@ pub fn type_pair_family(k: usize, tier: Tier) -> Vec<String> {
     }
     // The same three meetings for open types under two type parameters, with a type-level function
     // whose body is a definition group (so that reducing `pick a` substitutes an open term into a group).
-    let bodies = ["c", "(z : type = int; c)", "(z : type = c; z)", "(z : type = c; w : type = z; w)", "(z : type = int; w : type = c; w)", "(z : type = int; z)", "if true then c else int"];
+    let bodies = ["c", "(z : type = int; c)", "(z : type = c; z)", "(z : type = c; w : type = z; w)", "(z : type = int; w : type = c; w)", "(z : type = int; z)", "if true then c else int", "(z : type = int; w : type = bool; c)", "(z : type = int; w : type = z; v : type = bool; c)"];
     let open_types = ["a", "b", "int", "pick a", "pick b", "pick int", "(z : type = a; z)", "(z : type = int; a)", "(z : type = b; w : type = a; w)", "a -> b", "pick a -> pick b", "(q : pick a) -> b"];
     for body in bodies {
         for t1 in open_types {
@@ -452,7 +452,7 @@ pub fn type_pair_family(k: usize, tier: Tier) -> Vec<String> {
         }
     }
     // Indexes that are arithmetic stuck on parameters: p (n + n) against p (m + m) and the like.
-    let stuck_ints = ["n + n", "m + m", "n + m", "m + n", "n * n", "m * m", "n * m", "n - n", "m - m", "n", "m", "n + 1", "1 + n"];
+    let stuck_ints = ["n + n", "m + m", "n + m", "m + n", "n * n", "m * m", "n * m", "n - n", "m - m", "n", "m", "n + 1", "1 + n", "n / 2", "n / (1 + 1)", "2 * n", "(1 + 1) * n", "n - 2", "n - (1 + 1)"];
     for e1 in stuck_ints {
         for e2 in stuck_ints {
             out.push(format!("(pp : int -> type) => (n : int) => (m : int) => (mk : (kk : int) -> pp ({e1})) => (ww : pp ({e2}) = mk 3; 0)"));
@@ -509,7 +509,7 @@ pub fn type_pair_family(k: usize, tier: Tier) -> Vec<String> {
 pub fn late_hole_family() -> Vec<String> {
     let pre = ["(a : type) => ", "(n : int) => "];
     let mid = ["(f : a -> int) => ", "(c : bool) => ", "(t = int; @)", "(t = bool; @)", "(g : int -> a) => "];
-    let bodies = ["f x", "x + 1", "if c then x else f x", "if c then f x else x", "if c then x else g n", "(y : t = x; y)"];
+    let bodies = ["f x", "x + 1", "if c then x else f x", "if c then f x else x", "if c then x else g n", "(y : t = x; y)", "(y : t = x; z : bool = x; 0)", "(y : t = x; x + 1)", "(y : t = x; if x then 1 else 2)", "(z : bool = x; y : t = x; 0)", "(y : t = 3; (if false then y else x) + 1)", "(y : t = 3; if false then x else y)"];
     let mut pres: Vec<String> = vec![String::new()];
     for p in pre {
         pres.push(p.to_owned());
@@ -543,6 +543,11 @@ pub fn late_hole_family() -> Vec<String> {
                     rest = if item.contains('@') { item.replace('@', &rest) } else { format!("{item}{rest}") };
                 }
                 out.push(format!("{p}x => {rest}"));
+                // the function applied: the argument's type meets whatever was recorded for the hole
+                if p.is_empty() {
+                    out.push(format!("(x => {rest}) true"));
+                    out.push(format!("(x => {rest}) 3"));
+                }
             }
         }
     }
